@@ -1210,9 +1210,62 @@ def _is_ctl_yaml_valid(c):
         any(k in valid_prefix_cuts(c["name"], c["new"], c.get("validate")) for k in c.get("cuts") or [])
 
 
+class _Runner:
+    """impl_run in a forked helper process, one case at a time, with a time limit: the schedules start checks from
+    inside the writer's file-system calls and from inside other checks on ONE thread — on a tree where a check
+    blocks until another check has finished (a non-re-entrant lock held across the whole check) such a schedule
+    never returns.  The helper is then killed, the case is reported, and the next case gets a fresh helper."""
+
+    LIMIT = 40.0
+
+    def __init__(self):
+        self.pool = None
+        self.hangs = 0
+
+    def _ensure(self):
+        if self.pool is None:
+            import multiprocessing as mp
+            self.pool = mp.get_context("fork").Pool(1)
+
+    def run(self, c):
+        import multiprocessing as mp
+        if self.hangs >= 5:          # checks block each other on this tree: said five times, not five hundred
+            return {"error": "not run: five earlier schedules of this run never returned (see their reports)", "skipped": True}
+        self._ensure()
+        try:
+            return self.pool.apply_async(impl_run, (c,)).get(timeout=self.LIMIT)
+        except mp.TimeoutError:
+            self.hangs += 1
+            self.close(kill=True)
+            return {"error": "the schedule did not return within %.0f s: a check started while another check of the same "
+                             "thread was in progress (or while the writer was inside a file-system call) never came back — "
+                             "checks block each other" % self.LIMIT}
+        except Exception as e:  # noqa: BLE001  (e.g. an unpicklable result: run it here)
+            self.close(kill=True)
+            return impl_run(c)
+
+    def close(self, kill=False):
+        if self.pool is not None:
+            try:
+                self.pool.terminate() if kill else self.pool.close()
+            finally:
+                self.pool = None
+
+
 def check_cases(chk, cases, replay=False):
+    runner = _Runner()
+    try:
+        _check_cases(chk, cases, replay, runner)
+    finally:
+        runner.close(kill=True)
+
+
+def _check_cases(chk, cases, replay, runner):
     for c in cases:
-        out = impl_run(c)
+        out = runner.run(c)
+        if out.get("skipped"):
+            chk.count("rf:skipped-after-hangs")
+            continue
         key = json.dumps({k: v for k, v in c.items() if k != "fam"}, sort_keys=True)
         fam = c.get("fam", "?")
         chk.count("fam:" + fam)
